@@ -117,7 +117,7 @@ func (s *server) handleSigRequest(ctx context.Context, pID peer.ID, m proto.Mess
 		return nil, false, errors.Wrap(err, "signature request message check")
 	}
 
-	reqMessageHash, err := s.hashFunc(req.GetId(), req.GetMessage())
+	reqMessageHash, err := s.hashFunc(senderMsgID(pID, req.GetId()), req.GetMessage())
 	if err != nil {
 		return nil, false, errors.Wrap(err, "hash any")
 	}
@@ -141,7 +141,7 @@ func (s *server) handleMessage(ctx context.Context, pID peer.ID, m proto.Message
 		return nil, false, errors.New("invalid message type")
 	}
 
-	if err := s.verifyFunc(msg.GetId(), msg.GetMessage(), msg.GetSignatures()); err != nil {
+	if err := s.verifyFunc(pID, msg.GetId(), msg.GetMessage(), msg.GetSignatures()); err != nil {
 		return nil, false, errors.Wrap(err, "verify signatures")
 	}
 
